@@ -374,10 +374,12 @@ def main(factory_mod, factory_name, argv=None):
                 agg["errors"].extend(o["errors"])
                 agg["twice_ok"] += o["twice_ok"]
                 agg["twice_bad"].extend(o["twice_bad"])
-            if agg["errors"] or agg["twice_bad"]:
+            if agg["errors"]:
                 for f in pending:
                     f.cancel()
                 break
+            # (a run whose second execution gave another event log does not end the batch: under a changed tree the system itself may
+            #  have become non-deterministic, and then the violations the batch goes on to find are what should be reported)
             if any(v["violation"].get("key") not in known_keys for v in agg["violations"]):
                 # an unlisted violation decides the outcome; finish what is running, submit nothing new
                 for f in list(pending):
@@ -400,10 +402,6 @@ def main(factory_mod, factory_name, argv=None):
         i, s, msg = agg["errors"][0]
         print(f"HARNESS-ERROR property={chk.prop} run_index={i} seed={s}\n{msg}")
         sys.exit(2)
-    if agg["twice_bad"]:
-        print(f"HARNESS-ERROR property={chk.prop}: non-deterministic replay of runs {agg['twice_bad'][:3]}")
-        sys.exit(2)
-
     if a.dump_digests:
         with open(a.dump_digests, "w") as f:
             for i, d in sorted(agg.get("all_digests", [])):
@@ -481,4 +479,8 @@ def main(factory_mod, factory_name, argv=None):
                 json.dump(ev, f, indent=1, sort_keys=True, default=repr)
     print(f"{chk.prop}: runs={agg['n']} nontrivial_distinct={len(agg['digests'])} decisions={agg['decisions']} "
           f"wall={wall:.1f}s known={sum(known_seen.values())} fresh_violations={len(fresh)}")
+    if agg["twice_bad"] and rc == 0:
+        # nothing else was found, yet executing one run twice gave two different event logs: never a pass
+        print(f"HARNESS-ERROR property={chk.prop}: non-deterministic replay of runs {agg['twice_bad'][:3]}")
+        sys.exit(2)
     sys.exit(rc)
